@@ -262,6 +262,12 @@ def check(case):
             r.rejected = True
             if os.environ.get("MSV_DEBUG"):
                 print("REJECTED:\n" + hist + "\n" + run.stdout[:800])
+            if failure is None:
+                # the reference interpreter runs this program to completion: a compile-time rejection of it is a violation
+                # (when the model predicts a run-time failure, the compiler may legitimately report it earlier)
+                diag = "\n".join(l for l in run.stdout.split("\n") if " = " in l or "-->" in l)[:600]
+                r.failure = fail("the compiler rejected a program that the language accepts and the reference interpreter runs:\n" + diag + "\n" + hist,
+                                 "C08:rejected-valid-program", sc, case={"diagnostics": diag})
             return r
         feats = ",".join(l for l in case["labels"] if l.startswith("feat:"))
         r.failure = fail("; ".join(fails) + "\nhistory:\n" + hist, "C08:%s:%s:%s" % ("stdout" if run.stdout != out else "exit", run.klass, feats), sc, case={"history": hist})
@@ -287,16 +293,39 @@ def enumerated(tier, seed):
     # a class declared inside a function body / a loop body: every execution of the declaration creates the class again and
     # its instances are distinct objects with their own fields
     local_cls = ("class", "L", [("v", "int")], [("v", "int")], [("setf", SELF, "v", V("v"))],
-                 [("val", [], "int", [("return", F(SELF, "v"))]), ("add", [("d", "int")], None, [("opassign", F(SELF, "v"), "+=", V("d"))])])
+                 [("val", [], "int", [("return", F(SELF, "v"))]), ("add", [("d", "int")], None, [("opassign", F(SELF, "v"), "+=", V("d"))]),
+                  ("twin", [], ("cls", "Self"), [("return", ("new", "Self", [("bin", "+", F(SELF, "v"), I(1000))]))])])
     use = [G("a", None, ("new", "L", [V("n")])), G("b", None, ("new", "L", [V("n")])), G("c", None, V("a")),
-           ("expr", ("mcall", V("a"), "add", [I(10)])), ("print", ("bin", "is", V("a"), V("c"))), ("print", ("bin", "is", V("a"), V("b")))]
+           ("expr", ("mcall", V("a"), "add", [I(10)])), ("print", ("bin", "is", V("a"), V("c"))), ("print", ("bin", "is", V("a"), V("b"))),
+           G("t", None, ("mcall", V("a"), "twin", [])), ("print", ("mcall", V("t"), "val", [])), ("print", ("bin", "is", V("t"), V("a")))]
     infn = [G("mk", None, ("fn", [("n", "int")], "int", [local_cls] + use +
                            [("return", ("bin", "+", ("bin", "*", ("mcall", V("c"), "val", []), I(100)), ("mcall", V("b"), "val", [])))])),
             ("print", ("call", V("mk"), [I(1)])), ("print", ("call", V("mk"), [I(2)])), ("print", ("call", V("mk"), [I(3)]))]
     inloop = [G("n", None, I(0)),
               ("while", ("bin", "<", V("n"), I(3)), [G("n", None, ("bin", "+", V("n"), I(1))), local_cls] + use +
                [("print", ("mcall", V("c"), "val", [])), ("print", ("mcall", V("b"), "val", []))])]
-    return [{"stmts": coll, "labels": ["feat:field-named-like-a-global"], "nt": True, "raw": True},
+    # `self` escapes from the constructor (stored in a field of the object itself, pushed into a list of a parent object that was
+    # passed in): the escaped reference and the constructor's result are ONE object for `is`, for writes and for list ==
+    esc = [("class", "Reg", [("items", ("list", "int"))], [], [("setf", SELF, "items", ("list", []))], [("count", [], "int", [("return", ("mcall", F(SELF, "items"), "len", []))])]),
+           ("class", "N", [("me", ("opt", ("cls", "Self"))), ("v", "int")], [("v", "int")],
+            [("setf", SELF, "v", V("v")), ("setf", SELF, "me", SELF)],
+            [("same", [("other", ("cls", "Self"))], "bool", [("return", ("bin", "is", V("other"), SELF))]),
+             ("bump", [], ("cls", "Self"), [("opassign", F(SELF, "v"), "+=", I(1)), ("return", SELF)])]),
+           G("a", None, ("new", "N", [I(1)])), G("b", None, ("new", "N", [I(1)])),
+           G("am", None, ("get", F(V("a"), "me"))),
+           ("print", ("bin", "is", V("am"), V("a"))), ("print", ("bin", "is", V("am"), V("b"))), ("print", ("mcall", V("a"), "same", [V("am")])),
+           ("expr", ("mcall", V("am"), "bump", [])), ("print", F(V("a"), "v")), ("print", F(V("b"), "v")),
+           ("print", ("bin", "is", ("mcall", V("am"), "bump", []), V("a"))), ("print", F(V("a"), "v"))]
+    # objects kept in a list: index_of finds an object by identity (objects have no ==), a structurally equal one is not found
+    inlist = [("class", "E", [("v", "int")], [("v", "int")], [("setf", SELF, "v", V("v"))], []),
+              G("ea", None, ("new", "E", [I(1)])), G("eb", None, ("new", "E", [I(1)])),
+              G("es", ("list", ("cls", "E")), ("list", [V("eb"), V("ea")])),
+              ("print", ("or", ("mcall", V("es"), "index_of", [V("ea")]), I(0 - 1))), ("print", ("or", ("mcall", V("es"), "index_of", [V("eb")]), I(0 - 1))),
+              ("print", ("or", ("mcall", V("es"), "index_of", [("new", "E", [I(1)])]), I(0 - 1))),
+              ("setf", V("ea"), "v", I(5)), ("print", ("or", ("mcall", V("es"), "index_of", [V("ea")]), I(0 - 1))), ("print", F(("index", V("es"), I(1)), "v"))]
+    return [{"stmts": inlist, "labels": ["feat:index_of-object-in-list"], "nt": True, "raw": True},
+            {"stmts": esc, "labels": ["feat:self-escapes-from-constructor"], "nt": True, "raw": True},
+            {"stmts": coll, "labels": ["feat:field-named-like-a-global"], "nt": True, "raw": True},
             {"stmts": two, "labels": ["fixed:chain-identity"], "nt": True, "raw": True},
             {"stmts": infn, "labels": ["feat:class-declared-in-function-called-repeatedly"], "nt": True, "raw": True},
             {"stmts": inloop, "labels": ["feat:class-declared-in-loop-body"], "nt": True, "raw": True}]
